@@ -52,7 +52,13 @@ theorem C06_writes_monotone (c : Cfg) (slices : List (List Nat × Nat)) (fuel : 
 def cfg0 : Cfg :=
   { cl := { clauses := .freshMapShallow, selects := .shared, omits := .shared, joins := .makeCopy, scopes := .makeCopy,
             clone2UsesClone := true },
-    mg := { wher := .makeCopy, order := .makeCopy, group := .makeCopy, ret := .appendOld } }
+    mg := { wher := .makeCopy, order := .makeCopy, group := .makeCopy, ret := .appendOld },
+    fx := { groupCopies := false, groupInstance := false, buildCopies := false, selectCopies := false } }
+
+/-- the discipline of a tree that carries the five small repairs (fixes/F4, F5, F23, F22, F24): copies everywhere -/
+def cfgFixed : Cfg :=
+  { cfg0 with mg := { cfg0.mg with ret := .makeCopy },
+              fx := { groupCopies := true, groupInstance := true, buildCopies := true, selectCopies := true } }
 
 /-- non-vacuity: a history with shared ancestors, siblings, a group argument and renderings that writes
     no exposed slot, and whose renderings all equal their replays alone -/
@@ -89,9 +95,15 @@ theorem C06_step_never_writes (c : Cfg) (hw : c.mg.wher ≠ .appendOld) (ho : c.
 
 /-- REGENERATED FACTS: `Statement.clone()` builds a fresh Clauses map with the old entries, copies Joins
     and scopes with make+copy, shares Selects/Omits by reference; `getInstance` with clone == 2 goes through
-    `Statement.clone()`; Where/OrderBy/GroupBy.MergeClause copy — Returning.MergeClause appends onto the
-    old clause's slice.  A changed copy or merge discipline re-states this theorem. -/
-theorem C06_current_tree : genAll = cfg0 := by decide
+    `Statement.clone()`; Where/OrderBy/GroupBy.MergeClause copy.  The five places the listed findings live in
+    (Returning.MergeClause, BuildCondition's `*DB` arm twice, Where.Build, Select) are left open here: the
+    theorems below are keyed on what the regenerated facts say about each of them, so this statement is the
+    same on the unchanged tree and on a tree carrying the repairs.  Any OTHER change of the copy or merge
+    discipline breaks it. -/
+theorem C06_current_tree : genAll = { cfg0 with mg := { cfg0.mg with ret := genAll.mg.ret }, fx := genAll.fx } := by decide
+
+/-- … and each of the five open places is one of the two disciplines the model knows (in place / copy) -/
+theorem C06_current_tree_ret : genAll.mg.ret = .appendOld ∨ genAll.mg.ret = .makeCopy := by decide
 
 /-- every field of `type Statement struct` is classified by the clone facts (a field added without a
     `clone` entry shows up as `dropped` and must be added here consciously) -/
@@ -108,7 +120,7 @@ theorem C06_clone_fields_classified :
 /-- on the current tree the copying step kinds never write an exposed slot — unless the step is a
     Returning merge: the only hypothesis of `C06_step_never_writes` the regenerated facts refute -/
 theorem C06_current_tree_merges : genAll.mg.wher ≠ .appendOld ∧ genAll.mg.order ≠ .appendOld ∧ genAll.mg.group ≠ .appendOld := by
-  rw [C06_current_tree]; decide
+  decide
 
 /-! ## counterexamples: the step kinds that DO write exposed slots on the unchanged tree -/
 
